@@ -17,7 +17,9 @@
 (***************************************************************************)
 EXTENDS Clauses, TLC, Json
 
-CONSTANTS Depth, PoolMethods
+CONSTANTS Depth, PoolMethods,
+          Sharing   \* "none": qwt as it is (every conversion copies); "shared": sensitivity switch - a value
+                    \* and the copy made from it share storage until one of them is converted again
 
 VARIABLES pool, hist
 vars == <<pool, hist>>
@@ -42,7 +44,8 @@ Conv(s, m, keep) ==
 Mut(s) ==
     /\ Len(hist) < Depth
     /\ pool[s].kind = "BVM"
-    /\ pool' = [pool EXCEPT ![s].content = Append(@, Len(hist) + 1)]
+    /\ pool' = [t \in Slots |-> IF t = s \/ (Sharing = "shared" /\ Live(t) /\ pool[t].content = pool[s].content)
+                                 THEN [pool[t] EXCEPT !.content = Append(@, Len(hist) + 1)] ELSE pool[t]]
     /\ hist' = Append(hist, [a |-> "mut", s |-> s, m |-> "mut", keep |-> 1])
 
 Next == \E s \in Slots : Mut(s) \/ \E m \in PoolMethods, keep \in {0, 1} : Conv(s, m, keep)
